@@ -50,7 +50,8 @@ def mk_map(e, n):
     ks = [e.int(f'k{i}') for i in range(n)]
     for a, b in zip(ks, ks[1:]):
         e.assume(a.e < b.e)
-    vals = [T.StringType(f'v{i}') for i in range(n)]
+    # stored values include FALSY ones (empty string): presence must be decided by `is not None`, never by truthiness
+    vals = [T.StringType('' if i % 2 == 0 else f'v{i}') for i in range(n)]
     m = Obj(cls)
     m.f['items'] = [(ikey(k), v) for k, v in zip(ks, vals)]
     return m, [k.e for k in ks], vals
@@ -202,8 +203,8 @@ def native(case):
         r = getattr(s, op)(T.IntType(x))
         got = [int(i) for i in r.items]
         return got != ref or [int(i) for i in s.items] != ks, f'set {ks} {op} {x} = {got}, reference {ref}'
-    m = T.MapType.create_type(args=[T.IntType, T.StringType])([(T.IntType(k), T.StringType(f'v{i}')) for i, k in enumerate(ks)])
-    ref = {k: f'v{i}' for i, k in enumerate(ks)}
+    m = T.MapType.create_type(args=[T.IntType, T.StringType])([(T.IntType(k), T.StringType('' if i % 2 == 0 else f'v{i}')) for i, k in enumerate(ks)])
+    ref = {k: ('' if i % 2 == 0 else f'v{i}') for i, k in enumerate(ks)}
     if op == 'get':
         g = m.get(T.IntType(x))
         return (str(g) if g is not None else None) != ref.get(x), f'map {ks} get {x} = {g!r}'
